@@ -79,13 +79,13 @@ class Builder:
         self.inc = ['-I' + os.path.join(self.repo, 'include'), '-I' + self.gen]
         self.eng_hash = sha(*[read(os.path.join(VERIF, h)) for h in ENGINE_HEADERS if os.path.exists(os.path.join(VERIF, h))])
 
-    def compile(self, src, key, extra=()):
+    def compile(self, src, key, extra=(), cxx=None, flags=None):
         obj = os.path.join(BUILD, 'obj', key + '.o')
         if os.path.exists(obj):
             return obj, None
         os.makedirs(os.path.dirname(obj), exist_ok=True)
         tmp = obj + '.%d.tmp' % os.getpid()
-        cmd = [CXX] + CXXFLAGS + list(extra) + self.inc + ['-c', src, '-o', tmp]
+        cmd = [cxx or CXX] + (flags if flags is not None else CXXFLAGS) + list(extra) + self.inc + ['-c', src, '-o', tmp]
         r = run(cmd)
         if r.returncode != 0:
             return None, r.stdout
@@ -195,6 +195,88 @@ TIER_SCALE = {
     'C09': (2.5, 3), 'C10': (2, 3), 'C11': (8, 8), 'C12': (1.5, 2), 'C13': (1, 1), 'C14': (1, 1), 'C15': (0.7, 1), 'C16': (5, 8),
     'C17': (8, 10), 'C18': (1, 1), 'C19': (8, 8), 'C20': (20, 20),
 }
+
+FUZZ_CXX = 'clang++'
+FUZZ_FLAGS = ['-std=c++14', '-O1', '-g', '-fno-omit-frame-pointer', '-fsanitize=fuzzer-no-link,address,undefined', '-fno-sanitize-recover=undefined',
+              '-D' + GUARD, '-DVF_FUZZ', '-w']
+FUZZ_RUNS = {'C01': 60000, 'C04': 250000, 'C08': 60000, 'C09': 30000, 'C10': 150000, 'C20': 40000}   # executions per worker (16 workers)
+
+def build_fuzz(b, pid, jobs=NCPU):
+    """coverage-guided variant of a property binary: clang++ -fsanitize=fuzzer,address,undefined, same decoders and oracles"""
+    fl = ' '.join(FUZZ_FLAGS)
+    todo = []
+    for src in sorted(glob.glob(os.path.join(b.repo, 'src', '*.cpp'))):
+        todo.append((src, 'fzlib-' + os.path.basename(src)[:-4] + '-' + sha(fl, read(src), b.hdr_hash)))
+    eng = os.path.join(VERIF, 'engine', 'driver.cpp')
+    todo.append((eng, 'fzengine-' + sha(fl, read(eng), b.eng_hash)))
+    rm = os.path.join(VERIF, 'engine', 'refmath.cpp')
+    todo.append((rm, 'fzrefmath-' + sha(fl, read(rm), read(os.path.join(VERIF, 'engine', 'refmath.hpp')))))
+    ps = os.path.join(VERIF, 'props', pid + '.cpp')
+    todo.append((ps, 'fzprop-' + pid + '-' + sha(fl, read(ps), b.eng_hash, b.hdr_hash)))
+    with ThreadPoolExecutor(max_workers=jobs) as ex:
+        res = list(ex.map(lambda j: b.compile(j[0], j[1], (), FUZZ_CXX, FUZZ_FLAGS), todo))
+    for (src, key), (obj, err) in zip(todo, res):
+        if obj is None:
+            raise RuntimeError('fuzz compile failed: %s\n%s' % (src, err[-3000:]))
+    objs = [o for o, _ in res]
+    out = os.path.join(BUILD, 'bin', 'fz-' + pid + '-' + sha(*objs))
+    if not os.path.exists(out):
+        tmp = out + '.%d.tmp' % os.getpid()
+        r = run([FUZZ_CXX] + objs + ['-fsanitize=fuzzer,address,undefined', '-Wl,--wrap=exit', '-lconfig++', '-o', tmp])
+        if r.returncode != 0:
+            raise RuntimeError('fuzz link failed for %s\n%s' % (pid, r.stdout[-3000:]))
+        os.replace(tmp, out)
+    return out
+
+def fuzz_campaign(b, pid, binary, rundir, seed, scale, jobs):
+    """16 libFuzzer workers on the shared decoders; returns (stats dict, list of failing case files)"""
+    import random
+    fz = build_fuzz(b, pid, jobs)
+    nclauses = len([l for l in run([binary, '--list']).stdout.splitlines() if l.strip()])
+    runs = max(1000, int(FUZZ_RUNS.get(pid, 50000) * scale))
+    workers = min(jobs, 16)
+    procs = []
+    rnd = random.Random(seed)
+    for k in range(workers):
+        wd = os.path.join(rundir, 'fz%d' % k)
+        corpus = os.path.join(wd, 'corpus'); art = os.path.join(wd, 'art')
+        os.makedirs(corpus); os.makedirs(art)
+        for i in range(nclauses):   # one small valid input per clause, one random one
+            open(os.path.join(corpus, 'seed_zero_%d' % i), 'wb').write(bytes([i]) + bytes(64))
+            open(os.path.join(corpus, 'seed_rand_%d' % i), 'wb').write(bytes([i]) + bytes(rnd.getrandbits(8) for _ in range(512)))
+        env = san_env(wd)
+        env['VF_FUZZ_OUT'] = wd
+        cmd = [fz, corpus, '-runs=%d' % runs, '-seed=%d' % (seed * 1000 + k + 1), '-max_len=8192', '-len_control=0', '-artifact_prefix=' + art + '/',
+               '-print_final_stats=1', '-timeout=120', '-rss_limit_mb=6000', '-detect_leaks=0']
+        procs.append((k, wd, subprocess.Popen(cmd, env=env, stdout=open(os.path.join(wd, 'log.txt'), 'w'), stderr=subprocess.STDOUT)))
+    stats = {'engine': 'libFuzzer (clang++ -fsanitize=fuzzer,address,undefined) on the same decoders and oracles', 'workers': workers, 'runs_per_worker': runs,
+             'execs': 0, 'pass': 0, 'nontrivial': 0, 'discard': 0, 'coverage_edges': 0, 'corpus_units': 0}
+    fails = []
+    for k, wd, p in procs:
+        rc = p.wait()
+        for sp in glob.glob(os.path.join(wd, 'fuzzstats.*.json')):
+            try:
+                d = json.load(open(sp))
+                for key in ('execs', 'pass', 'nontrivial', 'discard'):
+                    stats[key] += d[key]
+            except ValueError:
+                pass
+        logtxt = open(os.path.join(wd, 'log.txt'), errors='replace').read()
+        import re
+        cov = re.findall(r'cov: (\d+)', logtxt)
+        if cov:
+            stats['coverage_edges'] = max(stats['coverage_edges'], int(cov[-1]))
+        stats['corpus_units'] += len(os.listdir(os.path.join(wd, 'corpus')))
+        cases = glob.glob(os.path.join(wd, 'fuzzfail.*.case'))
+        arts = [a for a in glob.glob(os.path.join(wd, 'art', '*')) if os.path.basename(a).startswith(('crash-', 'leak-'))]
+        if cases:
+            fails.append((cases[0], 'fail', 'libFuzzer worker %d: %s' % (k, logtxt[-400:])))
+        elif arts:   # sanitizer crash inside the library: convert the raw input
+            cf = os.path.join(wd, 'crash.case')
+            run([binary, '--fuzz-input', arts[0], '--out', cf])
+            if os.path.exists(cf):
+                fails.append((cf, 'crash', 'libFuzzer worker %d crashed: %s' % (k, logtxt[-1500:])))
+    return stats, fails
 
 def all_props():
     return sorted(os.path.basename(p)[:-4] for p in glob.glob(os.path.join(VERIF, 'props', 'C??.cpp')))
@@ -315,6 +397,16 @@ def check(pid, tier, repo, seed, scale, clauses, jobs, keep=False):
         if os.path.exists(hp):
             raw = read(hp)
             hashes.setdefault('all', set()).update(struct.unpack('<%dQ' % (len(raw) // 8), raw))
+    # ---- thorough tier: coverage-guided campaign on the same decoders (only if the generated phase found nothing)
+    fuzz_stats = None
+    if tier == 'thorough' and pid in FUZZ_RUNS and not failures and os.environ.get('VERIF_NO_FUZZ') != '1':
+        try:
+            fuzz_stats, ffails = fuzz_campaign(b, pid, binary, rundir, seed, float(os.environ.get('VERIF_FUZZ_SCALE', '1')), jobs)
+            for cf, kind, msg in ffails:
+                failures.append((None if kind == 'crash' else 'fuzz', kind, cf, msg, 0))
+        except RuntimeError as e:
+            log('FUZZ-BUILD-ERROR (campaign skipped, recorded in evidence):', str(e)[-1500:])
+            fuzz_stats = {'error': str(e)[-500:]}
     # ---- adjudicate failures: shrink, replay three times
     violations = []
     unreproduced = []
@@ -361,7 +453,7 @@ def check(pid, tier, repo, seed, scale, clauses, jobs, keep=False):
                 continue
         unreproduced.append((cl, kind, msg))
     # ---- evidence
-    evaluations = sum(m['cases'] for m in merged.values())
+    evaluations = sum(m['cases'] for m in merged.values()) + (fuzz_stats.get('execs', 0) if fuzz_stats else 0)
     discards = sum(m['discards'] for m in merged.values())
     distinct_nt = len(hashes.get('all', ()))
     samples = []
@@ -378,7 +470,7 @@ def check(pid, tier, repo, seed, scale, clauses, jobs, keep=False):
             'samples': samples[:24] if samples else [{'note': 'no case completed'}],
             'discarded': discards,
             'clauses': {cl: {k2: m[k2] for k2 in ('cases', 'discards', 'nontrivial', 'classes', 'worst_ratio', 'excluded_known', 'wall_s')} for cl, m in sorted(merged.items())},
-            'shards': nshards, 'scale': scale,
+            'shards': nshards, 'scale': scale, 'fuzz': fuzz_stats,
             'unreproduced_failures': [{'clause': c, 'kind': kd, 'message': ms[:500]} for c, kd, ms in unreproduced],
             'known_findings': [{'id': f.get('id'), 'status': f.get('status'), 'what': f.get('what')} for f in kf],
             'violations_found': [{'clause': c, 'kind': kd, 'replay': dst, 'message': ms[:800]} for c, kd, dst, ms, _ in violations],
